@@ -200,6 +200,11 @@ class CellEval:
             return res
         if isinstance(node, ast.Constant):
             return bool(node.value)
+        if isinstance(node, ast.Call) and self._call_name(node) in ("isclose", "allclose") and len(node.args) >= 2:
+            # a tolerance comparison: its exact part is equality; that it can also hold for distinct values is recorded
+            # for the rule that owns the function (a cell model has no "nearly equal" ordering)
+            self.tolerance_tests = getattr(self, "tolerance_tests", []) + [node]
+            return self.compare("==", self.eval(node.args[0]), self.eval(node.args[1]))
         raise Undecided("test %s" % ast.unparse(node)[:60])
 
 
